@@ -1,13 +1,13 @@
 SPECIFICATION Spec
 CONSTANTS
   Blocks <- MC_Blocks
-  Tier = "quick"
+  Tier = "tiny"
   MathNames <- MC_MathNames
   ResidChoices = {TRUE}
   MaxGenerations = 2
   AsFound_KUndefined = FALSE
   AsFound_ChainedLagNoSeries = FALSE
-  AsFound_OwnNamesAccepted = FALSE
+  AsFound_OwnNamesAccepted = TRUE
 INVARIANT TypeOK
 INVARIANT C20_Closed
 INVARIANT C20_LoopStateOwn
@@ -16,5 +16,4 @@ INVARIANT C20_HeaderTimeFirst
 INVARIANT C20_StepAppendsAll
 INVARIANT C20_StepSatisfiesEquations
 INVARIANT C20_RunsClean
-CONSTRAINT Emit
 CHECK_DEADLOCK FALSE
